@@ -174,6 +174,10 @@ class SimpleClient:
                     timeout=timeout):  # pragma: no cover
                 raise TimeoutError()
             if not self.connected:
+                if self.input_buffer:
+                    # events that arrived before the connection ended are
+                    # returned first
+                    break
                 raise DisconnectedError()
             if not self.input_event.wait(timeout=timeout):
                 raise TimeoutError()
